@@ -69,6 +69,44 @@ TABLE = {
  ]),
 }
 
+TABLE.update({
+ "C02": ("folding preserves the function (address-book evaluation)", ["Gen", "Fold"], [
+   ("folded_sound", "C02_folded_sound", "evaluating any folded graph through its address book (concatenate the listed module outputs, gather by the index lists, apply the members fold-wise) reproduces the unfolded values slice by slice whenever the book is consistent; modules are arbitrary functions, so this holds for every layer type, semiring, parameter value and input"),
+ ]),
+ "C12": ("circuits built with normalised parameterisations are normalised", ["Base", "Circ", "Integrate", "Normalised"], [
+   ("normalised_partition", "C12_partition_one", "if every input node integrates to one over its scope and every sum row sums to one, every node of the integrated circuit evaluates to the all-ones vector"),
+   ("normalised_partition_IntL", "C12_partition_function", "... hence the partition function (iterated integral of every unit of every node) equals one, for every parameter value"),
+   ("softmax_row_sum", "C12_softmax_rows", "softmax rows sum to one over any field"),
+   ("mixing_row_sum", "C12_mixing_rows", "a mixing-weight row sums to the sum of its mixing coefficients"),
+   ("monotone_nonneg", "C12_nonnegative", "circuits with non-negative weights and input functions are non-negative"),
+   ("monotone_pos", "C12_positive", "circuits with positive weights and input functions are positive (finite log)"),
+ ]),
+ "C16": ("region-graph constructions are valid", ["Base", "Scalar", "Tensor", "Pexpr", "Exec", "Struct", "RG", "RGProofs"], [
+   ("rg_valid_spec", "C16_valid_spec", "the executable validity predicate holds exactly when: roots cover all variables, every region is non-empty, every partition splits its region into non-empty pairwise-disjoint regions covering it"),
+   ("rg_sd_spec", "C16_sd_flag", "the structured-decomposability flag holds exactly when partitions of the same scope split it into the same set of sub-scopes"),
+   ("ff_valid", "C16_fully_factorized", "the fully-factorised region graph is valid, structured-decomposable and over variables 0..n-1, for every n and number of repetitions"),
+   ("linear_valid", "C16_linear_tree", "the linear-tree region graph is valid and structured-decomposable over exactly the variables of its ordering, for every duplicate-free ordering"),
+ ]),
+ "C17": ("parameter initialisation bookkeeping", ["Init"], [
+   ("simplex_axis_correct", "C17_axis", "the axis normalised inside a parameter's own slice (kept with its fold dimension) is the declared axis modulo the rank, for positive and negative declarations"),
+   ("movedim_restores", "C17_dirichlet_shape", "sampling with the simplex axis last and moving it back to its position restores the tensor's shape, for every rank and axis"),
+   ("foldwise_nth", "C17_foldwise_slice", "fold-wise initialisation applies initialiser i to slice i only"),
+   ("foldwise_length", "C17_foldwise_length", "and keeps the number of slices"),
+ ]),
+ "C18": ("compiler registry and pipeline context stay coherent over any call history", ["Ctx"], [
+   ("wb_restores", "C18_contexts", "for every well-bracketed enter/exit sequence over distinct or sequentially reused context objects (no re-entrance of an active object), every exit finds its token, the active value after the sequence equals the one before, and the tokens of enclosing contexts are untouched"),
+   ("compile_memo", "C18_memo", "compiling an already compiled circuit leaves the registry unchanged (the same compiled object is returned)"),
+   ("compile_registers", "C18_registers", "after compile the circuit is registered"),
+   ("compile_nodup", "C18_bijection", "each symbolic circuit has exactly one compiled object: the registry never contains duplicates"),
+   ("compile_ordered", "C18_operands_first", "in the registry every circuit appears after all of its operands (operands are compiled before the circuits derived from them)"),
+ ]),
+ "C19": ("saved parameters reproduce the circuit after reload", ["State"], [
+   ("load_save", "C19_roundtrip", "if the names of two instances are equal and unique, loading the saved dictionary of one into the other reproduces the saved instance exactly, whatever the other held before"),
+   ("load_names", "C19_names_preserved", "loading never changes the set of names"),
+   ("load_lookup", "C19_load_lookup", "every entry named in the dictionary takes the dictionary's value"),
+ ]),
+})
+
 if __name__ == "__main__":
     for pid in (sys.argv[1:] or TABLE):
         gen(pid, *TABLE[pid])
